@@ -243,3 +243,24 @@ Definition safe_ops : list bytes :=
   [ bs "len"; bs "range"; bs "tuple"; bs "set"; bs ".keys"; bs ".add"; bs ".append"; bs ".defaultdict";
     bs "._add_dict"; bs "._remove_dead_reminders" ].
 Definition op_safe (fo : bytes * bytes) : bool := memk (snd fo) safe_ops.
+
+(* ------------------------------------------------ os.fork(): what is demanded
+   No cache_clear() happened and no device vanished at a fork: the child's answers continue the
+   history of the parent as of the fork (raw + the offsets accumulated before it), and the
+   parent's answers are not affected by what the child does. *)
+Fixpoint spec_ftrace (g : ghost) (ops : list fop) : list pobs * list (list pobs) :=
+  match ops with
+  | [] => ([], [])
+  | FCall o :: rest =>
+    let r := spec_ftrace (fst (spec_pstep g o)) rest in (snd (spec_pstep g o) :: fst r, snd r)
+  | FFork child :: rest =>
+    let r := spec_ftrace g rest in (fst r, spec_ptrace g child :: snd r)
+  end.
+Definition fop_ok (o : fop) : bool :=
+  match o with FCall c => pop_ok c | FFork child => forallb pop_ok child end.
+
+(* at-fork handlers found in the source (props/_c10_tables.py): what a handler may not touch *)
+Definition fork_forbidden : list bytes :=
+  [ bs "attr:cache"; bs "attr:reminders"; bs "attr:reminder_keys"; bs "attr:cache_clear"; bs "attr:__init__"; bs "attr:__dict__";
+    bs "store:_wn"; bs "name:_WrapNumbers"; bs "name:wrap_numbers"; bs "name:_wrap_numbers"; bs "unresolved" ].
+Definition handler_safe (h : bytes * list bytes) : bool := forallb (fun tok => negb (memk tok fork_forbidden)) (snd h).
